@@ -56,6 +56,7 @@ type ixn struct {
 	act            string // a d n b
 	perms          int
 	id             string
+	inPrec         int // Sources[i].Precedence as sent by the client (0 = a fresh struct)
 }
 
 func (x ixn) key() string { return x.peer + "\x00" + x.src + "\x00" + x.dst }
@@ -97,7 +98,7 @@ func mkPerms(n int) []*structs.IntentionPermission {
 }
 
 func (x ixn) source() *structs.SourceIntention {
-	return &structs.SourceIntention{Name: x.src, Peer: x.peer, Action: actString(x.act), Permissions: mkPerms(x.perms)}
+	return &structs.SourceIntention{Name: x.src, Peer: x.peer, Action: actString(x.act), Permissions: mkPerms(x.perms), Precedence: x.inPrec}
 }
 
 // observed intention (what the implementation returned)
@@ -230,6 +231,9 @@ func encSrcs(srcs []ixn) string {
 	t := make([]string, len(srcs))
 	for i, x := range srcs {
 		t[i] = fmt.Sprintf("%s;%s;%s;%d", hx.EncS(x.peer), hx.EncS(x.src), x.act, x.perms)
+		if x.inPrec != 0 {
+			t[i] += fmt.Sprintf(";%d", x.inPrec)
+		}
 	}
 	return hx.EncList(t)
 }
@@ -240,6 +244,18 @@ func (t *sut) ent(run *hx.Run, dst string, srcs []ixn) string {
 	for _, x := range srcs {
 		e.Sources = append(e.Sources, x.source())
 	}
+	return t.applyEntry(run, e, "ent")
+}
+
+// applyEntry: Normalize, Validate, EnsureConfigEntry of the given struct; the op line carries what was sent,
+// including the Precedence fields (an exported field: fresh structs send 0, a read-modify-write sends back
+// what the store returned).
+func (t *sut) applyEntry(run *hx.Run, e *structs.ServiceIntentionsConfigEntry, tag string) string {
+	sent := make([]ixn, len(e.Sources))
+	for i, src := range e.Sources {
+		sent[i] = ixn{peer: src.Peer, src: src.Name, dst: e.Name, act: actCode(src.Action), perms: len(src.Permissions), inPrec: src.Precedence}
+	}
+	op := fmt.Sprintf("ent %s %s", hx.EncS(e.Name), encSrcs(sent))
 	var out string
 	if err := e.Normalize(); err != nil {
 		out = mapErr(err)
@@ -249,9 +265,41 @@ func (t *sut) ent(run *hx.Run, dst string, srcs []ixn) string {
 		t.idx++
 		out = mapErr(t.s.EnsureConfigEntry(t.idx, e))
 	}
-	t.line(run, fmt.Sprintf("ent %s %s", hx.EncS(dst), encSrcs(srcs)), out)
-	run.Tag("op:ent:" + tagOf(out))
+	t.line(run, op, out)
+	run.Tag("op:" + tag + ":" + tagOf(out))
+	t.auditPrec(run)
 	return out
+}
+
+// rmw: the operator workflow "read the service-intentions entry, edit it, write it back": the struct read from
+// the store (a clone, computed fields included) is edited in place and sent through the normal apply path.
+// Returns "absent" when there is no such entry.
+func (t *sut) rmw(run *hx.Run, name string, edit func(e *structs.ServiceIntentionsConfigEntry)) string {
+	_, raw, err := t.s.ConfigEntry(nil, structs.ServiceIntentions, name, nil)
+	must(err)
+	if raw == nil {
+		return "absent"
+	}
+	e := raw.(*structs.ServiceIntentionsConfigEntry).Clone()
+	edit(e)
+	return t.applyEntry(run, e, "rmw")
+}
+
+// auditPrec (monitor, after every write, no protocol line): the Precedence stored with every intention is
+// the one recomputed from its names, whatever the client sent and whatever was stored before.
+func (t *sut) auditPrec(run *hx.Run) {
+	_, res, _, err := t.s.Intentions(nil, nil)
+	must(err)
+	for _, i := range res {
+		o := observe(i)
+		if o.src == "" || o.dst == "" {
+			continue
+		}
+		if o.prec != precTable[specificity(o)] {
+			violate(run, "write:stored-precedence-not-recomputed-from-names",
+				fmt.Sprintf("after the last write %s/%s -> %s is stored with precedence %d, its names give %d", o.peer, o.src, o.dst, o.prec, precTable[specificity(o)]), t.ops)
+		}
+	}
 }
 
 func tagOf(out string) string {
@@ -276,8 +324,13 @@ func (t *sut) up(run *hx.Run, x ixn) string {
 		Value:       x.source(),
 	}
 	out := mapErr(t.s.IntentionMutation(t.idx, structs.IntentionOpUpsert, mut))
-	t.line(run, fmt.Sprintf("up %s %s %s %d", hx.EncS(x.dst), hx.EncS(x.src), x.act, x.perms), out)
+	op := fmt.Sprintf("up %s %s %s %d", hx.EncS(x.dst), hx.EncS(x.src), x.act, x.perms)
+	if x.inPrec != 0 {
+		op += fmt.Sprintf(" %d", x.inPrec)
+	}
+	t.line(run, op, out)
 	run.Tag("op:up:" + tagOf(out))
+	t.auditPrec(run)
 	return out
 }
 
@@ -287,6 +340,7 @@ func (t *sut) del(run *hx.Run, dst, src string) string {
 	out := mapErr(t.s.IntentionMutation(t.idx, structs.IntentionOpDelete, mut))
 	t.line(run, fmt.Sprintf("del %s %s", hx.EncS(dst), hx.EncS(src)), out)
 	run.Tag("op:del:" + tagOf(out))
+	t.auditPrec(run)
 	return out
 }
 
@@ -302,6 +356,7 @@ func (t *sut) lcreate(run *hx.Run, x ixn) string {
 	out := mapErr(t.s.IntentionMutation(t.idx, structs.IntentionOpCreate, mut))
 	t.line(run, fmt.Sprintf("lcreate %s %s %s %s", hx.EncS(x.dst), hx.EncS(x.src), x.act, hx.EncS(x.id)), out)
 	run.Tag("op:lcreate:" + tagOf(out))
+	t.auditPrec(run)
 	return out
 }
 
@@ -316,6 +371,7 @@ func (t *sut) lupdate(run *hx.Run, x ixn) string {
 	out := mapErr(t.s.IntentionMutation(t.idx, structs.IntentionOpUpdate, &structs.IntentionMutation{ID: x.id, Value: v}))
 	t.line(run, fmt.Sprintf("lupdate %s %s %s", hx.EncS(x.id), hx.EncS(x.src), x.act), out)
 	run.Tag("op:lupdate:" + tagOf(out))
+	t.auditPrec(run)
 	return out
 }
 
@@ -324,6 +380,7 @@ func (t *sut) ldelid(run *hx.Run, id string) string {
 	out := mapErr(t.s.IntentionMutation(t.idx, structs.IntentionOpDelete, &structs.IntentionMutation{ID: id}))
 	t.line(run, "ldelid "+hx.EncS(id), out)
 	run.Tag("op:ldelid:" + tagOf(out))
+	t.auditPrec(run)
 	return out
 }
 
@@ -334,6 +391,7 @@ func (t *sut) lset(run *hx.Run, x ixn) string {
 	out := mapErr(t.s.LegacyIntentionSet(t.idx, row))
 	t.line(run, fmt.Sprintf("lset %s %s %s %s", hx.EncS(x.id), hx.EncS(x.src), hx.EncS(x.dst), x.act), out)
 	run.Tag("op:lset:" + tagOf(out))
+	t.auditPrec(run)
 	return out
 }
 
@@ -739,6 +797,137 @@ func build(run *hx.Run, r *hx.RNG, style string, set []ixn, perm []int) *sut {
 			}
 		}
 		return t
+	case "ent-prec", "up-prec": // the same writes, the client sending arbitrary Precedence values
+		t := newSUT(run, true)
+		garbage := []int{1, 3, 5, 6, 8, 9, 10, 77}
+		if style == "up-prec" {
+			for _, k := range perm {
+				x := set[k]
+				x.inPrec = hx.Pick(r, garbage)
+				if out := t.up(run, x); out != "ok" {
+					violate(run, "write:valid-upsert-rejected", out, t.ops)
+				}
+			}
+			return t
+		}
+		var order []string
+		groups := map[string][]ixn{}
+		for _, k := range perm {
+			x := set[k]
+			x.inPrec = hx.Pick(r, garbage)
+			if _, ok := groups[x.dst]; !ok {
+				order = append(order, x.dst)
+			}
+			groups[x.dst] = append(groups[x.dst], x)
+		}
+		for _, d := range order {
+			if out := t.ent(run, d, groups[d]); out != "ok" {
+				violate(run, "write:valid-entry-rejected", out, t.ops)
+			}
+		}
+		return t
+	case "rmw": // every entry reaches its final content through read - edit - write back of a different pre-image
+		t := newSUT(run, true)
+		var order []string
+		groups := map[string][]ixn{}
+		for _, k := range perm {
+			x := set[k]
+			if _, ok := groups[x.dst]; !ok {
+				order = append(order, x.dst)
+			}
+			groups[x.dst] = append(groups[x.dst], x)
+		}
+		flipAct := func(a string) string {
+			switch a {
+			case "a":
+				return "d"
+			case "d":
+				return "a"
+			}
+			return a
+		}
+		for _, d := range order {
+			g := groups[d]
+			kind := r.Intn(3)
+			hasPerms := false
+			for _, x := range g {
+				if x.perms > 0 {
+					hasPerms = true
+				}
+			}
+			alt := "*"
+			if d == "*" {
+				alt = "zz9"
+			}
+			if _, clash := groups[alt]; kind == 1 && (clash || (hasPerms && alt == "*")) {
+				kind = 0
+			}
+			switch kind {
+			case 0: // one source was written under the other kind of name (exact <-> wildcard) and is renamed
+				j := r.Intn(len(g))
+				other := "*"
+				if g[j].src == "*" {
+					other = "zz7"
+				}
+				clash := false
+				for _, x := range g {
+					if x.peer == g[j].peer && x.src == other {
+						clash = true
+					}
+				}
+				if clash {
+					other = "zz8"
+				}
+				pre := append([]ixn(nil), g...)
+				pre[j].src, pre[j].act = other, flipAct(pre[j].act)
+				want := g[j]
+				if out := t.ent(run, d, pre); out != "ok" {
+					violate(run, "write:valid-entry-rejected", out, t.ops)
+				}
+				out := t.rmw(run, d, func(e *structs.ServiceIntentionsConfigEntry) {
+					for _, src := range e.Sources {
+						if src.Peer == want.peer && src.Name == other {
+							src.Name, src.Action = want.src, actString(want.act)
+						}
+					}
+				})
+				if out != "ok" {
+					violate(run, "write:valid-read-modify-write-rejected", out, t.ops)
+				}
+				run.Tag("rmw:source-name-exact<->wildcard")
+			case 1: // the whole entry was written for the other kind of destination and is moved
+				pre := append([]ixn(nil), g...)
+				for j := range pre {
+					pre[j].dst = alt
+				}
+				if out := t.ent(run, alt, pre); out != "ok" {
+					violate(run, "write:valid-entry-rejected", out, t.ops)
+				}
+				if out := t.rmw(run, alt, func(e *structs.ServiceIntentionsConfigEntry) { e.Name = d }); out != "ok" {
+					violate(run, "write:valid-read-modify-write-rejected", out, t.ops)
+				}
+				t.entdel(run, alt)
+				run.Tag("rmw:destination-exact<->wildcard")
+			default: // only actions change (the precedence carried over is the right one)
+				pre := append([]ixn(nil), g...)
+				for j := range pre {
+					pre[j].act = flipAct(pre[j].act)
+				}
+				if out := t.ent(run, d, pre); out != "ok" {
+					violate(run, "write:valid-entry-rejected", out, t.ops)
+				}
+				out := t.rmw(run, d, func(e *structs.ServiceIntentionsConfigEntry) {
+					for _, src := range e.Sources {
+						src.Action = actString(flipAct(actCode(src.Action)))
+					}
+				})
+				if out != "ok" {
+					violate(run, "write:valid-read-modify-write-rejected", out, t.ops)
+				}
+				run.Tag("rmw:action-only")
+			}
+		}
+		return t
 	case "legacy": // legacy table rows, ids handed out in a shuffled order
 		t := newSUT(run, false)
 		ids := append([]string(nil), idPool...)
@@ -827,7 +1016,10 @@ func permCase(run *hx.Run, r *hx.RNG, set []ixn, names []string, styles []string
 	var firstOps []string
 	nontriv := false
 	for _, style := range styles {
-		for _, p := range perms {
+		for pi, p := range perms {
+			if pi >= 2 && (style == "rmw" || strings.HasSuffix(style, "-prec")) {
+				continue // these styles vary the write path, two orders each are enough
+			}
 			t := build(run, r, style, set, p)
 			tr := interrogate(run, t, names, peers)
 			nontriv = nontriv || tr.nontriv
@@ -919,7 +1111,34 @@ func historyCase(run *hx.Run, r *hx.RNG) {
 				if r.Chance(5) {
 					x.perms = 1 // with an action, or on a wildcard destination: invalid
 				}
+				if r.Chance(30) {
+					x.inPrec = hx.Pick(r, []int{1, 5, 6, 8, 9, 12})
+				}
 				t.up(run, x)
+			case roll < 43: // read - edit - write back of a stored entry
+				flip := func(n string) string {
+					if n == "*" {
+						return hx.Pick(r, names)
+					}
+					return "*"
+				}
+				kind := r.Intn(3)
+				out := t.rmw(run, x.dst, func(e *structs.ServiceIntentionsConfigEntry) {
+					switch {
+					case kind == 0 && len(e.Sources) > 0:
+						src := e.Sources[r.Intn(len(e.Sources))]
+						src.Name = flip(src.Name)
+					case kind == 1:
+						e.Name = flip(e.Name)
+					default:
+						for _, src := range e.Sources {
+							if src.Action == structs.IntentionActionAllow {
+								src.Action = structs.IntentionActionDeny
+							}
+						}
+					}
+				})
+				run.Tag("op:rmw-attempt:" + tagOf(out))
 			case roll < 50:
 				t.del(run, x.dst, x.src)
 			case roll < 70:
@@ -938,6 +1157,9 @@ func historyCase(run *hx.Run, r *hx.RNG) {
 					}
 					if r.Chance(5) {
 						y.src = hx.Pick(r, []string{"", "w*"})
+					}
+					if r.Chance(30) {
+						y.inPrec = hx.Pick(r, []int{1, 5, 6, 8, 9, 12})
 					}
 					srcs = append(srcs, y)
 				}
@@ -1008,7 +1230,7 @@ func exhaustive(run *hx.Run, r *hx.RNG, maxSize int) {
 				}
 				set[k] = x
 			}
-			permCase(run, r, set, []string{"a", "b"}, []string{"ent"}, 6, "exhaustive")
+			permCase(run, r, set, []string{"a", "b"}, []string{"ent", "rmw"}, 6, "exhaustive")
 			n++
 		}
 		if len(cur) == maxSize {
@@ -1189,15 +1411,15 @@ func main() {
 		case 0: // local L4 sets: every representation must agree
 			names := pickNames(r, 2+r.Intn(2))
 			set := genSet(r, names, nil, false, 1+r.Intn(5))
-			permCase(run, r, set, names, []string{"up", "ent", "legacy", "lcreate", "lupdate"}, run.Scale(3, 6), "local-l4")
+			permCase(run, r, set, names, []string{"up", "ent", "legacy", "lcreate", "lupdate", "rmw", "up-prec"}, run.Scale(3, 6), "local-l4")
 		case 1: // peers and L7: config entries only
 			names := pickNames(r, 2+r.Intn(2))
 			set := genSet(r, names, peerPool, true, 1+r.Intn(6))
-			permCase(run, r, set, names, []string{"ent"}, run.Scale(4, 12), "peer-l7")
+			permCase(run, r, set, names, []string{"ent", "rmw", "ent-prec"}, run.Scale(4, 12), "peer-l7")
 		case 2: // local with L7: upserts and whole entries
 			names := pickNames(r, 2+r.Intn(2))
 			set := genSet(r, names, nil, true, 1+r.Intn(5))
-			permCase(run, r, set, names, []string{"up", "ent"}, run.Scale(4, 8), "local-l7")
+			permCase(run, r, set, names, []string{"up", "ent", "rmw", "ent-prec", "up-prec"}, run.Scale(4, 8), "local-l7")
 		default:
 			historyCase(run, r)
 		}
